@@ -221,8 +221,8 @@ func findContentScenario(c map[string]any, seed int64, rep int) (map[string]any,
 		switch enrc {
 		case "max":
 			sz = 300
-		case "tight": // five records fit only if the 4-byte offset per record is forgotten
-			sz = 235
+		case "tight": // five records fit only if the 4-byte offsets are forgotten - all five of them (235) or those of the records already added (232..234)
+			sz = []int{235, 233, 234, 232}[int((seed+int64(rep))%4)]
 		case "mixed":
 			sz = []int{231, 231, 231, 230, 232, 300, 0}[(i+rep)%7]
 			if rep == 0 {
@@ -232,6 +232,12 @@ func findContentScenario(c map[string]any, seed int64, rep int) (map[string]any,
 		n := mkENR(rng, nil, stdnet.IP{10, 0, byte(1 + i/200), byte(1 + i%200)}, 30000+i, sz, 1)
 		idx[n.ID()] = i
 		B.P.AddEnr(n)
+	}
+	// every other scenario: B holds an OLDER record of the asker than the one the asker's session will carry (the asker
+	// is recognised by its id, whatever the sequence number of the record in the table)
+	if (seed+int64(rep))%2 == 1 {
+		B.P.AddEnr(A.P.Self())
+		A.LN.Set(enr.WithEntry("rev", uint32(rep)))
 	}
 	// make B know A first when the scenario wants the asker in the table: any request does that (inbound contact)
 	mark := sw.Mark()
